@@ -13,6 +13,7 @@ import (
 	base_mysql "github.com/cossacklabs/acra/decryptor/mysql/base"
 	"github.com/cossacklabs/acra/encryptor/base/config"
 	emysql "github.com/cossacklabs/acra/encryptor/mysql"
+	maskingCommon "github.com/cossacklabs/acra/masking/common"
 	"github.com/cossacklabs/acra/sqlparser"
 	"github.com/cossacklabs/acra/zz_verif/verif"
 	"github.com/cossacklabs/acra/zz_verif/vks"
@@ -228,7 +229,6 @@ func VerifC04_MySQLUncoveredRowValue() {
 	verif.Assert(len(out) == len(row), "uncovered-row-same-length")
 	verif.Assert(verif.Eq(out, row), "uncovered-row-unchanged")
 }
-
 
 // verifStoredHexLiteral returns what the first X'..' literal of a forwarded statement denotes.
 func verifStoredHexLiteral(fwd string) ([]byte, bool) {
@@ -681,4 +681,64 @@ func VerifC12_MySQLRowReframe() {
 	want = append(want, 4, 'k', 'e', 'e', 'p')
 	verif.Assert(len(out) == len(want), "rewritten-row-length")
 	verif.Assert(verif.Eq(out, want), "rewritten-row-well-formed")
+}
+
+// VerifC11_MySQLMasking: a masked column through the MySQL proxy. The forwarded statement never carries the whole
+// value, the owner reads the original, a client without the keys gets the visible window and the mask.
+func VerifC11_MySQLMasking() {
+	store := verifKeys()
+	env := config.CryptoEnvelopeTypeAcraBlock
+	side := maskingCommon.PlainTextSideLeft
+	if verif.Choose("side", 0, 1) == 1 {
+		side = maskingCommon.PlainTextSideRight
+	}
+	setting := &config.BasicColumnEncryptionSetting{Name: "secret", UsedClientID: "A", CryptoEnvelope: &env,
+		MaskingPattern: "##", PartialPlaintextLenBytes: 1, PlaintextSide: side}
+	h, ctx, parser := verifProxyWith(store, "A", setting)
+	lit := verifMarker("literal", 3)
+	obj, changed, err := h.queryObserverManager.OnQuery(ctx, emysql.NewOnQueryObjectFromQuery(verifFill("insert into t (id, secret, plain) values (1, '%s', 'keep')", lit), parser))
+	verif.Assert(err == nil && changed, "write-rewritten")
+	if err != nil || !changed {
+		return
+	}
+	fwd := obj.Query()
+	verif.Assert(!verif.Contains([]byte(fwd), lit), "whole-plaintext-not-forwarded")
+	stored, ok := verifStoredHexLiteral(fwd)
+	verif.Assert(ok, "protected-value-is-a-hex-literal")
+	if !ok {
+		return
+	}
+	owner := verif.Choose("reader", 0, 1) == 0
+	rh, rctx := h, ctx
+	if !owner {
+		rh, rctx, _ = verifProxyWith(store, "B", setting)
+	}
+	if _, _, err := rh.queryObserverManager.OnQuery(rctx, emysql.NewOnQueryObjectFromQuery("select id, secret, plain from t", parser)); err != nil {
+		return
+	}
+	row := base_mysql.PutLengthEncodedString([]byte("1"))
+	row = append(row, base_mysql.PutLengthEncodedString(stored)...)
+	row = append(row, base_mysql.PutLengthEncodedString([]byte("keep"))...)
+	fields := []*ColumnDescription{{Name: []byte("id")}, {Name: []byte("secret")}, {Name: []byte("plain")}}
+	out, err := rh.processTextDataRow(rctx, verifDup(row), fields)
+	verif.Reach("row-processed")
+	verif.Assert(err == nil, "row-no-error")
+	if err != nil {
+		return
+	}
+	shown := lit
+	if !owner {
+		shown = append([]byte{lit[0]}, "##"...)
+		if side == maskingCommon.PlainTextSideRight {
+			shown = append([]byte("##"), lit[2])
+		}
+	}
+	want := base_mysql.PutLengthEncodedString([]byte("1"))
+	want = append(want, base_mysql.PutLengthEncodedString(shown)...)
+	want = append(want, base_mysql.PutLengthEncodedString([]byte("keep"))...)
+	if owner {
+		verif.Assert(verif.Eq(out, want), "owner-reads-original-row")
+	} else {
+		verif.Assert(verif.Eq(out, want), "other-client-gets-window-and-mask")
+	}
 }
